@@ -228,12 +228,16 @@ func (b *backendConfigSessionHandler) handlePluginMessage(pc *proto.PacketContex
 		_ = b.serverConn.player.WritePacket(plugin.RewriteMinecraftBrand(p,
 			b.serverConn.player.Protocol()))
 	} else {
-		bytes := pc.Payload
 		id, ok := b.proxy().ChannelRegistrar().FromID(p.Channel)
 		if !ok {
 			b.forwardToPlayer(pc, nil)
 			return
 		}
+
+		// The event exposes the plugin message's body (not the raw packet payload,
+		// which also holds the packet id and the channel name).
+		data := make([]byte, len(p.Data))
+		copy(data, p.Data)
 
 		// Handling this stuff async means that we should probably pause
 		// the connection while we toss this off into another pool
@@ -242,10 +246,10 @@ func (b *backendConfigSessionHandler) handlePluginMessage(pc *proto.PacketContex
 			source:     b.serverConn,
 			target:     b.serverConn.player,
 			identifier: id,
-			data:       bytes,
+			data:       data,
 		}, func(pme *PluginMessageEvent) {
 			if pme.Allowed() && b.serverConn.active() {
-				b.forwardToPlayer(pc, &plugin.Message{
+				b.forwardToPlayer(nil, &plugin.Message{
 					Channel: p.Channel,
 					Data:    pme.Data(),
 				})
